@@ -616,4 +616,220 @@ theorem time_nondecreasing_1D (p : SnowIn ℝ) (Nz : ℕ) (old : Bool) (shelf : 
   rw [(hok a ha).2.1, (hok b hb).2.1]
   exact mul_le_mul_of_nonneg_left (by exact_mod_cast hab) hdt
 
+
+/-! ### 0D histories -/
+
+theorem cool0D_trace_size (p : SnowIn ℝ) (shelf : List ℝ) (k : ℕ) (hk : k < shelf.length) :
+    (st0D p shelf k).Ttrace.size = k + 1 := by
+  unfold st0D
+  exact stateAt_inv _ (fun i (s : Cool0D ℝ) => s.Ttrace.size = i) shelf _ (by simp [coolInit0D])
+    (by intro j hj s hs; simp [coolStep0D, hs]) k hk
+
+theorem solid0D_trace_size (p : SnowIn ℝ) (shelf : List ℝ) (Nt : ℕ) :
+    (solFin0D p shelf Nt).Ttrace.size = (shelf.drop Nt).length := by
+  unfold solFin0D
+  have := iterIdx_inv (solidStep0D p) (fun i (s : Solid0D ℝ) => s.Ttrace.size = i) (shelf.drop Nt) 0
+    (solInit0D p shelf Nt) (by simp [solInit0D]) (by intro j hj s hs; simp [solidStep0D, hs])
+  simpa using this
+
+/-- **history_aligned (0D)**: in a completed run `time`, `shelfTemp`, `temp`, `iceMassFraction` all
+have one entry per programme step (`n = len(profile)`), and `shelfTemp` is the programme (°C). -/
+theorem history_aligned_0D (p : SnowIn ℝ) (shelf : List ℝ) (hexc : (run0DOn p shelf).exc = none) :
+    ∃ h, (run0DOn p shelf).hist = some h ∧ h.time.size = shelf.length ∧ h.shelf.size = shelf.length ∧
+      h.temp.size = shelf.length ∧ h.ice.size = shelf.length ∧
+      h.shelf.toList = shelf.map (· - 273.15) := by
+  revert hexc
+  unfold run0DOn
+  rcases hc : cool0D p shelf with ⟨_ | Nt, s⟩
+  · intro h; cases h
+  · have hs := cool0D_state p shelf Nt s hc
+    have hNt : Nt < shelf.length := by
+      have : (cool0D p shelf).1 = some Nt := by rw [hc]
+      rw [cool0D, loopUntil_fst_some_iff] at this; exact this.1
+    have h1 := cool0D_trace_size p shelf Nt hNt
+    have h2 := solid0D_trace_size p shelf Nt
+    rw [← hs] at h1
+    dsimp only
+    split
+    · intro h; cases h
+    · intro _
+      have h2' : (solid0D p (nucleate0D p s.T).1 (nucleate0D p s.T).2 (List.drop Nt shelf)).Ttrace.size
+          = shelf.length - Nt := by
+        have : solid0D p (nucleate0D p s.T).1 (nucleate0D p s.T).2 (List.drop Nt shelf) = solFin0D p shelf Nt := by
+          simp only [solid0D, solFin0D, solInit0D, hs]
+        rw [this, h2]; simp
+      refine ⟨_, rfl, ?_, ?_, ?_, ?_, ?_⟩
+      · simp; omega
+      · simp
+      · simp [h1, h2']; omega
+      · simp [h2']; omega
+      · simp [lit27315]
+
+/-! ### the object: a fresh object never shows partial data; a reused one does (finding K6) -/
+
+/-- **complete_or_raise, fresh object, 0D**: after `run()` on a freshly constructed object, either
+the run returned and `results` and the histories are complete, or it raised and every accessor
+raises `AssertionError` – no partial data. -/
+theorem complete_or_raise_fresh_0D (p : SnowIn ℝ) (shelf : List ℝ) :
+    let o := (SnowObj.fresh).run (out0D (run0DOn p shelf))
+    ((run0DOn p shelf).exc = none ∧
+        ∃ st h a b, o.results = .ok (some st) ∧ st.t_sol = some a ∧ st.t_fr = some b ∧
+          o.history = .ok (some h)) ∨
+    ((run0DOn p shelf).exc ≠ none ∧ o.results = .error "AssertionError" ∧
+        o.history = .error "AssertionError") := by
+  intro o
+  rcases complete_or_raise_0D p shelf with ⟨h1, st, h, a, b, hst, ha, hb, hh⟩ | ⟨h1, h2, _⟩
+  · left
+    refine ⟨h1, st, h, a, b, ?_, ha, hb, ?_⟩
+    · simp [o, SnowObj.run, SnowObj.results, SnowObj.fresh, out0D, h1, hst]
+    · simp [o, SnowObj.run, SnowObj.history, SnowObj.fresh, out0D, h1, hh]
+  · right
+    refine ⟨by rw [h1]; simp, ?_, ?_⟩
+    · simp [o, SnowObj.run, SnowObj.results, SnowObj.fresh, out0D, h1]
+    · simp [o, SnowObj.run, SnowObj.history, SnowObj.fresh, out0D, h1, h2]
+
+/-- **complete_or_raise, fresh object, 1D** -/
+theorem complete_or_raise_fresh_1D (p : SnowIn ℝ) (Nz : ℕ) (old : Bool) (shelf : List ℝ) :
+    let o := (SnowObj.fresh).run (out1D (run1DOn p Nz old shelf))
+    ((run1DOn p Nz old shelf).exc = none ∧
+        ∃ st h a b, o.results = .ok (some st) ∧ st.t_sol = some a ∧ st.t_fr = some b ∧
+          o.history = .ok (some h)) ∨
+    ((run1DOn p Nz old shelf).exc ≠ none ∧ o.results = .error "AssertionError" ∧
+        o.history = .error "AssertionError") := by
+  intro o
+  rcases complete_or_raise_1D p Nz old shelf with ⟨h1, st, h, a, b, hst, ha, hb, hh⟩ | ⟨h1, h2, _⟩
+  · left
+    refine ⟨h1, st, h, a, b, ?_, ha, hb, ?_⟩
+    · simp [o, SnowObj.run, SnowObj.results, SnowObj.fresh, out1D, h1, hst]
+    · simp [o, SnowObj.run, SnowObj.history, SnowObj.fresh, out1D, h1, hh]
+  · right
+    have hne : (run1DOn p Nz old shelf).exc ≠ none := by rcases h1 with h1 | h1 <;> rw [h1] <;> simp
+    refine ⟨hne, ?_, ?_⟩
+    · rcases h1 with h1 | h1 <;> simp [o, SnowObj.run, SnowObj.results, SnowObj.fresh, out1D, h1]
+    · rcases h1 with h1 | h1 <;> simp [o, SnowObj.run, SnowObj.history, SnowObj.fresh, out1D, h1, h2]
+
+/-- **reused object (state machine)**: if a first run completed and a second run on the same object
+raises after having written its nucleation statistics (i.e. it fails in the solidification stage),
+then `results` returns the NEW statistics with `t_sol = t_fr = None` while the history accessors
+return the OLD arrays: partial, mutually inconsistent data. -/
+theorem reused_object_partial {S H : Type} (r1 r2 : RunOut S H) (h1 : H) (st2 : S) (e : String)
+    (hr1 : r1.exc = none) (hh1 : r1.hist = some h1)
+    (hr2 : r2.exc = some e) (hs2 : r2.stats = some st2) (hh2 : r2.hist = none) :
+    let o := ((SnowObj.fresh).run r1).run r2
+    o.results = .ok (some st2) ∧ o.history = .ok (some h1) := by
+  intro o
+  constructor
+  · simp [o, SnowObj.run, SnowObj.results, SnowObj.fresh, hr1, hr2, hs2]
+  · simp [o, SnowObj.run, SnowObj.history, SnowObj.fresh, hr1, hr2, hh1, hh2]
+
+/-! ### concrete runs (non-vacuity and the K6 witness) -/
+
+/-- run 1: unit constants, no solute, controlled nucleation at −8 °C, shelf at 0 K: freezes in one step -/
+noncomputable def okIn : SnowIn ℝ := { exIn with cnTemp := some (-8) }
+/-- run 2 on the same object: only half of the mass can freeze – nucleates, never reaches 90 % -/
+noncomputable def badIn : SnowIn ℝ :=
+  { exIn with cnTemp := some (-8), const := { exConst with mass_water := 1 / 2 } }
+
+theorem sigma_no_solute (p : SnowIn ℝ) (T : ℝ) (h0 : p.const.mass_solute = 0) (h1 : p.const.mass = 1) :
+    sigma0D p (iceFrac0D p T) = p.const.mass_water := by
+  simp [sigma0D, iceFrac0D, h0, h1]
+
+theorem cool_one_step (p : SnowIn ℝ) (hcn : p.cnTemp = some (-8)) (hT0 : p.T_0 = 273.15)
+    (hA : p.const.A = 1) (hK : p.Kshelf = 1) (hc : p.const.cp_solution = 1) (hm : p.const.mass = 1) :
+    (cool0D p [0]).1 = some 0 := by
+  rw [cool0D, loopUntil_fst_some_iff]
+  refine ⟨by simp, ?_, by intro j hj; omega⟩
+  simp only [coolStop0D, hcn, decide_eq_true_eq, lit27315]
+  rw [stateAt_zero _ _ _ (by simp)]
+  simp only [coolStep0D, coolInit0D, hT0, hA, hK, hc, hm, dt0D, lit_real, List.getElem_cons_zero]
+  norm_num
+
+theorem solEnd_one_step (p : SnowIn ℝ) (h0 : p.const.mass_solute = 0) (h1 : p.const.mass = 1) :
+    (solFin0D p [0] 0).solEnd = if 0.9 ≤ p.const.mass_water then some 0 else none := by
+  have hsg : (solSt0D p [0] 0 0).sg = p.const.mass_water := by
+    simp only [solSt0D, List.drop_zero, prefState_cons_zero, solidStep0D]
+    exact sigma_no_solute p _ h0 h1
+  split_ifs with h
+  · rw [tsol_first_90_0D]
+    exact ⟨by simp, by rw [hsg]; exact h, by intro j hj; omega⟩
+  · cases hq : (solFin0D p [0] 0).solEnd with
+    | none => rfl
+    | some k =>
+      obtain ⟨hk, hge, _⟩ := (tsol_first_90_0D p [0] 0 k).mp hq
+      simp only [List.drop_zero, List.length_cons, List.length_nil] at hk
+      have : k = 0 := by omega
+      subst this
+      rw [hsg] at hge
+      exact absurd hge h
+
+theorem run0DOn_outcome (p : SnowIn ℝ) (shelf : List ℝ) (Nt : ℕ) (hc : (cool0D p shelf).1 = some Nt) :
+    (∀ iS, (solFin0D p shelf Nt).solEnd = some iS →
+      (run0DOn p shelf).exc = none ∧ (run0DOn p shelf).NtSolEnd = some iS) ∧
+    ((solFin0D p shelf Nt).solEnd = none →
+      (run0DOn p shelf).exc = some "ValueError" ∧ (run0DOn p shelf).stage = "solidification" ∧
+        (run0DOn p shelf).hist = none ∧
+        ∃ st, (run0DOn p shelf).stats = some st ∧ st.t_sol = none ∧ st.t_fr = none) := by
+  unfold run0DOn
+  rcases hcc : cool0D p shelf with ⟨_ | Nt', s⟩
+  · rw [hcc] at hc; cases hc
+  · rw [hcc] at hc; cases hc
+    have hs := cool0D_state p shelf Nt s hcc
+    have hfin : solid0D p (nucleate0D p s.T).1 (nucleate0D p s.T).2 (List.drop Nt shelf) = solFin0D p shelf Nt := by
+      simp only [solid0D, solFin0D, solInit0D, hs]
+    dsimp only
+    rw [hfin]
+    constructor
+    · intro iS h
+      rw [h]
+      exact ⟨rfl, rfl⟩
+    · intro h
+      rw [h]
+      exact ⟨rfl, rfl, rfl, _, rfl, rfl, rfl⟩
+
+/-- **K6, concrete witness in the model**: run `okIn` (completes), then `badIn` on the same object
+(raises "Solidification is not completed"): afterwards `results` shows statistics with
+`t_sol = None` beside the complete history arrays of the FIRST run. -/
+theorem reused_object_counterexample :
+    let r1 := out0D (run0DOn okIn [0])
+    let r2 := out0D (run0DOn badIn [0])
+    let o := ((SnowObj.fresh).run r1).run r2
+    r1.exc = none ∧ r2.exc = some "ValueError" ∧
+      (∃ st, o.results = .ok (some st) ∧ st.t_sol = none ∧ st.t_fr = none) ∧
+      (∃ h, o.history = .ok (some h) ∧ (run0DOn okIn [0]).hist = some h) := by
+  intro r1 r2 o
+  have hT0 : ∀ q : SnowIn ℝ, q.oc = exIn.oc → q.T_0 = 273.15 := by
+    intro q hq; simp only [SnowIn.T_0, hq, exIn, lit27315]; norm_num
+  have c1 := cool_one_step okIn rfl (hT0 _ rfl) rfl rfl rfl rfl
+  have c2 := cool_one_step badIn rfl (hT0 _ rfl) rfl rfl rfl rfl
+  have s1 := solEnd_one_step okIn rfl rfl
+  have s2 := solEnd_one_step badIn rfl rfl
+  have m1 : okIn.const.mass_water = 1 := rfl
+  have m2 : badIn.const.mass_water = 1 / 2 := rfl
+  rw [m1] at s1; rw [m2] at s2
+  norm_num at s1 s2
+  obtain ⟨e1, _⟩ := (run0DOn_outcome okIn [0] 0 c1).1 0 s1
+  obtain ⟨e2, _, hh2, st2, hst2, ht1, ht2⟩ := (run0DOn_outcome badIn [0] 0 c2).2 s2
+  obtain ⟨h1, hh1, _⟩ := history_aligned_0D okIn [0] e1
+  have := reused_object_partial r1 r2 h1 st2 "ValueError" e1 hh1 e2 hst2 hh2
+  exact ⟨e1, e2, ⟨st2, this.1, ht1, ht2⟩, ⟨h1, this.2, hh1⟩⟩
+
+/-- the hypotheses used above are satisfiable: a concrete completing run (so `history_aligned_0D`,
+`tfr_eq_0D`, `times_within_0D` apply non-trivially) and a concrete run failing in solidification -/
+theorem nonvacuous :
+    (run0DOn okIn [0]).exc = none ∧ (run0DOn okIn [0]).NtCoolEnd = some 0 ∧
+      (run0DOn okIn [0]).NtSolEnd = some 0 ∧ (run0DOn badIn [0]).stage = "solidification" := by
+  have hT0 : ∀ q : SnowIn ℝ, q.oc = exIn.oc → q.T_0 = 273.15 := by
+    intro q hq; simp only [SnowIn.T_0, hq, exIn, lit27315]; norm_num
+  have c1 := cool_one_step okIn rfl (hT0 _ rfl) rfl rfl rfl rfl
+  have c2 := cool_one_step badIn rfl (hT0 _ rfl) rfl rfl rfl rfl
+  have s1 := solEnd_one_step okIn rfl rfl
+  have s2 := solEnd_one_step badIn rfl rfl
+  have m1 : okIn.const.mass_water = 1 := rfl
+  have m2 : badIn.const.mass_water = 1 / 2 := rfl
+  rw [m1] at s1; rw [m2] at s2
+  norm_num at s1 s2
+  obtain ⟨e1, e1'⟩ := (run0DOn_outcome okIn [0] 0 c1).1 0 s1
+  obtain ⟨_, e2, _⟩ := (run0DOn_outcome badIn [0] 0 c2).2 s2
+  exact ⟨e1, by rw [run0DOn_NtCoolEnd]; exact c1, e1', e2⟩
+
 end Snow.C13
